@@ -209,7 +209,8 @@ def capacity_override(ctx, item, R):
     for t in codec.messages_of(parsed, roots):
         for f in M.inner(t).fields_except_padding if not isinstance(M.inner(t), pydsdl.UnionType) else M.inner(t).fields:
             dt = f.data_type
-            if isinstance(dt, pydsdl.VariableLengthArrayType) and dt.capacity >= 2 and not isinstance(dt.element_type, pydsdl.BooleanType) and R.random() < 0.6:
+            # bit-packed bool arrays too: whether or not their storage follows the macro, declaration and length checks must agree
+            if isinstance(dt, pydsdl.VariableLengthArrayType) and dt.capacity >= 2 and R.random() < 0.6:
                 k = R.choice([1, max(1, dt.capacity // 2), dt.capacity - 1])
                 defines.append("%s_%s_ARRAY_CAPACITY_=%dU" % (filter_full_reference_name(lang, t), lang.filter_id(f), k))
                 reduced[(codec.key(t), f.name)] = k
